@@ -6,7 +6,12 @@ import os
 
 VERIF = os.path.dirname(os.path.dirname(os.path.abspath(__file__)))
 rows = []
-for d in sorted(glob.glob(os.path.join(VERIF, 'seeded', '*'))):
+def _key(d):
+    a, _, b = os.path.basename(d).partition('_')
+    return (a, int(b) if b.isdigit() else 0)
+
+
+for d in sorted(glob.glob(os.path.join(VERIF, 'seeded', '*')), key=_key):
     try:
         m = json.load(open(os.path.join(d, 'meta.json')))
     except Exception:
